@@ -44,7 +44,9 @@ def qrot_n(q):
 
 
 def so3_exp_n(phi):
-    """quaternion of Exp(phi), phi (...,3): [sin(th/2)/th * phi, cos(th/2)], Taylor series of sin(th/2)/th below 1e-4"""
+    """quaternion of Exp(phi), phi (...,3): [sin(th/2)/th * phi, cos(th/2)], Taylor series of sin(th/2)/th below 1e-4.
+    Valid for every angle th (also beyond pi and 2 pi: only Log would have to wrap); callers compare rotations as
+    matrices (qrot_n), so the sign of the quaternion does not matter."""
     phi = np.asarray(phi, dtype=np.float64)
     th = np.linalg.norm(phi, axis=-1, keepdims=True)
     t2 = th * th
